@@ -151,10 +151,15 @@ def _index_dispatcher(gt):
     return _func(gt, names.pop())
 
 
+def _loop_range(f, loop):
+    """the `range(a, b)` call a loop runs over, also when it was given a name first (`offsets = range(a, b)`)"""
+    it = _resolve(loop.iter, _single_assigns(f))
+    return it if isinstance(it, ast.Call) and _callname(it) == "range" and len(it.args) == 2 else None
+
+
 def _range_loops(f):
-    """`for v in range(a, b)` loops of f in source order: [(target name, For node)]"""
-    loops = [n for n in ast.walk(f) if isinstance(n, ast.For) and isinstance(n.target, ast.Name)
-             and isinstance(n.iter, ast.Call) and _callname(n.iter) == "range" and len(n.iter.args) == 2]
+    """`for v in range(a, b)` loops of f in source order"""
+    loops = [n for n in ast.walk(f) if isinstance(n, ast.For) and isinstance(n.target, ast.Name) and _loop_range(f, n) is not None]
     return sorted(loops, key=lambda n: (n.lineno, n.col_offset))
 
 
@@ -332,7 +337,7 @@ def _tric_ranges(f, src):
         r_ = _int_range(pr[2], src)
         return r_, r_, r_
     a_, b_, c_ = _nested3(f, "the triclinic-box helper")
-    return _int_range(a_.iter, src), _int_range(b_.iter, src), _int_range(c_.iter, src)
+    return _int_range(_loop_range(f, a_), src), _int_range(_loop_range(f, b_), src), _int_range(_loop_range(f, c_), src)
 
 
 def extract_constants():
@@ -374,7 +379,11 @@ def extract_constants():
     for c in ast.walk(f):
         if isinstance(c, ast.Compare) and len(c.ops) == 1 and isinstance(c.ops[0], (ast.Lt, ast.LtE)):
             rows = []
-            for s_ in ast.walk(c.left):
+            operands = []
+            for x_ in ast.walk(c.left):
+                if isinstance(x_, ast.Call) and _callname(x_) == "vector_dot":
+                    operands = [_resolve(a_, asg_) for a_ in x_.args]
+            for s_ in operands:
                 if isinstance(s_, ast.Subscript) and isinstance(s_.slice, ast.Tuple) and len(s_.slice.elts) == 3:
                     mid = s_.slice.elts[1]
                     if isinstance(mid, ast.Constant) and isinstance(mid.value, int):
@@ -391,8 +400,8 @@ def extract_constants():
     loops = list(_nested3(f, "repeat_box_coord"))
     offs = set()
     for lp in loops:
-        it = lp.iter
-        if not (isinstance(it, ast.Call) and isinstance(it.func, ast.Name) and it.func.id == "range" and len(it.args) == 2):
+        it = _loop_range(f, lp)
+        if it is None:
             raise ValueError("repeat_box_coord: range(lo, hi) expected")
         offs.add((_amount_offset(it.args[0], bsrc, True), _amount_offset(it.args[1], bsrc, False)))
     if len(offs) != 1:
@@ -763,7 +772,8 @@ def extract_structure():
     if len(tile) != 1 or len(tile[0].args) != 2:
         raise _Tie("repeat_box_coord: `np.tile(np.arange(n), count)` not found")
     o["repCount"] = _to_lean(tile[0].args[1], {"amount": "amount"}, {}).replace(": Rat", ": Int")
-    o["repTypeCheck"] = [ast.unparse(c.args[1]) for c in ast.walk(f) if isinstance(c, ast.Call) and _callname(c) == "isinstance"]
+    o["repTypeCheck"] = [ast.unparse(c.args[1]) for n in ast.walk(f) if isinstance(n, ast.If) and _raises(n)
+                         for c in ast.walk(n.test) if isinstance(c, ast.Call) and _callname(c) == "isinstance"]
     o["repAdds"] = [type(n.op).__name__ for n in ast.walk(loops3[2]) if isinstance(n, ast.AugAssign)]
     # ---- (H) remove_pbc_from_coord (locals in alpha-normal form, found through the public functions they feed)
     f = _func(bt, "remove_pbc_from_coord")
@@ -773,7 +783,8 @@ def extract_structure():
         raise _Tie("remove_pbc_from_coord: call of index_displacement(coord, pairs, ...) not found")
     pairs_expr = _resolve(idc[0].args[1], asg)
     ar = [c for c in ast.walk(pairs_expr) if isinstance(c, ast.Call) and _callname(c) == "arange"]
-    o["rpbcPairs"] = [[ast.unparse(a_) for a_ in c.args] for c in ar]
+    pure = {k_: v_ for k_, v_ in asg.items() if not any(isinstance(x_, ast.Call) for x_ in ast.walk(v_))}
+    o["rpbcPairs"] = [[_unp(a_, {}, inline=pure) for a_ in c.args] for c in ar]
     o["rpbcDisp"] = ["index_displacement"] + sorted(f"{k_.arg}={ast.unparse(k_.value)}" for k_ in idc[0].keywords)
     cs = [c for c in ast.walk(f) if isinstance(c, ast.Call) and _callname(c) == "cumsum"]
     if len(cs) != 1 or _resolve(cs[0].args[0], asg) is not idc[0]:
@@ -2333,8 +2344,8 @@ def _o_exact(case):
                             continue
                         continue
                     break
-        except Exception as e:  # noqa: BLE001
-            v.append(("C15/oracle-internal/" + type(e).__name__, f"op `{op}`: {e}"))
+        except Exception:  # noqa: BLE001
+            raise          # the harness could not judge the case: reported by the framework as `oracle-error` (a broken tie), never as a failing input
     return v
 
 
